@@ -95,10 +95,10 @@ Proof. unfold is_witness_program, OP_PUSHNUM_1, OP_PUSHNUM_16, OP_PUSHBYTES_2, O
     { destruct V as [-> | R]; [reflexivity|]. apply orb_true_iff. right. apply andb_true_iff. split; lia. }
     repeat (apply andb_true_iff; split); lia. Qed.
 
-(* the predicate as coded: any push length 0..40 *)
+(* version 1..16 followed by one direct push of 2..40 bytes that ends the script *)
 Theorem is_v1plus_p2witprog_iff s : is_v1plus_p2witprog s = true <->
-  exists v prog, 0x51 <= b2n v <= 0x60 /\ lenN prog <= 40 /\ s = v :: n2b (lenN prog) :: prog.
-Proof. unfold is_v1plus_p2witprog, OP_PUSHNUM_1, OP_PUSHNUM_16, OP_PUSHBYTES_40. split.
+  exists v prog, 0x51 <= b2n v <= 0x60 /\ 2 <= lenN prog <= 40 /\ s = v :: n2b (lenN prog) :: prog.
+Proof. unfold is_v1plus_p2witprog, OP_PUSHNUM_1, OP_PUSHNUM_16, OP_PUSHBYTES_2, OP_PUSHBYTES_40. split.
   - intros H. split_andb. destruct s as [|v [|l prog]]; [exfalso; vm_compute in H; discriminate H|exfalso; vm_compute in H; discriminate H|].
     unfold at_ in *. cbn [nth] in *. rewrite !lenN_cons in *. exists v, prog.
     assert (E : lenN prog = b2n l) by lia. split; [lia|split; [lia|rewrite E, n2b_b2n; reflexivity]].
@@ -123,7 +123,7 @@ Theorem from_script_cases s :
   \/ (exists h, length h = 20%nat /\ s = xa9 :: x14 :: h ++ [x87] /\ from_script s = Val (Some (ScriptHash h)))
   \/ (exists h, length h = 20%nat /\ s = x00 :: x14 :: h /\ from_script s = Val (Some (WitnessProgram 0 h)))
   \/ (exists h, length h = 32%nat /\ s = x00 :: x20 :: h /\ from_script s = Val (Some (WitnessProgram 0 h)))
-  \/ (exists v prog, 1 <= v <= 16 /\ lenN prog <= 40 /\ s = n2b (0x50 + v) :: n2b (lenN prog) :: prog
+  \/ (exists v prog, 1 <= v <= 16 /\ 2 <= lenN prog <= 40 /\ s = n2b (0x50 + v) :: n2b (lenN prog) :: prog
                      /\ from_script s = Val (Some (WitnessProgram v prog)))
   \/ (from_script s = Val None /\ is_p2pkh s = false /\ is_p2sh s = false /\ is_v0_p2wpkh s = false /\ is_v0_p2wsh s = false
       /\ is_v1plus_p2witprog s = false).
@@ -186,57 +186,30 @@ Proof. intros F. destruct (from_script_cases s) as [(h & L & -> & E)|[(h & L & -
   - rewrite spk_witness; [|lia|unfold lenN; rewrite L; cbn; lia]. unfold lenN. rewrite L. reflexivity.
   - rewrite spk_witness by lia. destruct (N.eqb_spec v 0); [lia|]. reflexivity. Qed.
 
-(* ------------------------------------------------------------------ from_script <-> templates, outside the F14 class *)
-Lemma known_F14_iff s : known_F14 s = true <->
-  exists v prog, 0x51 <= b2n v <= 0x60 /\ lenN prog < 2 /\ s = v :: n2b (lenN prog) :: prog.
-Proof. unfold known_F14. rewrite andb_true_iff, is_v1plus_p2witprog_iff. split.
-  - intros [(v & prog & V & L & ->) H]. unfold at_ in H. cbn [nth] in H. rewrite b2n_n2b_small in H by lia. exists v, prog. split; [exact V|]. split; [lia|reflexivity].
-  - intros (v & prog & V & L & ->). split; [exists v, prog; split; [exact V|split; [lia|reflexivity]]|].
-    unfold at_. cbn [nth]. rewrite b2n_n2b_small by lia. lia. Qed.
-
+(* ------------------------------------------------------------------ from_script <-> templates *)
 Lemma template_predicate s : address_template s ->
   is_p2pkh s = true \/ is_p2sh s = true \/ is_v0_p2wpkh s = true \/ is_v0_p2wsh s = true \/ is_v1plus_p2witprog s = true.
-Proof. intros [H|[H|[H|[H|(v & prog & V & L & E)]]]].
+Proof. intros [H|[H|[H|[H|H]]]].
   - left. now apply is_p2pkh_iff.
   - right; left. now apply is_p2sh_iff.
   - right; right; left. now apply is_v0_p2wpkh_iff.
   - right; right; right; left. now apply is_v0_p2wsh_iff.
-  - right; right; right; right. apply is_v1plus_p2witprog_iff. exists v, prog. split; [exact V|]. split; [lia|exact E]. Qed.
+  - right; right; right; right. now apply is_v1plus_p2witprog_iff. Qed.
 
-Theorem from_script_some_iff s : known_F14 s = false -> ((exists a, from_script s = Val (Some a)) <-> address_template s).
-Proof. intros K. split.
+Theorem from_script_some_iff s : (exists a, from_script s = Val (Some a)) <-> address_template s.
+Proof. split.
   - intros [a F]. destruct (from_script_cases s) as [(h & L & E & _)|[(h & L & E & _)|[(h & L & E & _)|[(h & L & E & _)|[(v & prog & V & L & E & _)|(E & _)]]]]].
     + left. eauto.
     + right; left. eauto.
     + right; right; left. eauto.
     + right; right; right; left. eauto.
-    + right; right; right; right. exists (n2b (80 + v)), prog. rewrite b2n_n2b_small by lia. split; [lia|]. split; [|exact E].
-      split; [|exact L]. destruct (N.leb_spec 2 (lenN prog)) as [|Short]; [assumption|]. exfalso.
-      assert (known_F14 s = true); [|congruence]. apply known_F14_iff. exists (n2b (80 + v)), prog. rewrite b2n_n2b_small by lia. split; [lia|]. split; [lia|exact E].
+    + right; right; right; right. exists (n2b (80 + v)), prog. rewrite b2n_n2b_small by lia. split; [lia|]. split; [exact L|exact E].
     + congruence.
   - intros T. destruct (from_script_cases s) as [(h & _ & _ & E)|[(h & _ & _ & E)|[(h & _ & _ & E)|[(h & _ & _ & E)|[(v & prog & _ & _ & _ & E)|(E & N1 & N2 & N3 & N4 & N5)]]]]];
       try (eexists; exact E). exfalso. apply template_predicate in T. intuition congruence. Qed.
 
-Theorem from_script_wf s a : from_script s = Val (Some a) -> known_F14 s = false -> payload_wf a = true.
-Proof. intros F K. destruct (from_script_cases s) as [(h & L & _ & E)|[(h & L & _ & E)|[(h & L & _ & E)|[(h & L & _ & E)|[(v & prog & V & L & S & E)|(E & _)]]]]];
+(* the payload of a derived address is one whose text form round-trips (C06's well-formedness, payload part) *)
+Theorem from_script_wf s a : from_script s = Val (Some a) -> payload_wf a = true.
+Proof. intros F. destruct (from_script_cases s) as [(h & L & _ & E)|[(h & L & _ & E)|[(h & L & _ & E)|[(h & L & _ & E)|[(v & prog & V & L & S & E)|(E & _)]]]]];
   rewrite E in F; inversion F; subst a; cbn [payload_wf]; unfold len_is, lenN; rewrite ?L; try reflexivity.
-  assert (2 <= lenN prog).
-  { destruct (N.leb_spec 2 (lenN prog)) as [|Short]; [assumption|]. exfalso. assert (known_F14 s = true); [|congruence].
-    apply known_F14_iff. exists (n2b (80 + v)), prog. rewrite b2n_n2b_small by lia. split; [lia|]. split; [lia|exact S]. }
   fold (lenN prog). destruct (N.eqb_spec v 0); [lia|]. cbn [negb orb]. rewrite andb_true_r. repeat (apply andb_true_iff; split); lia. Qed.
-
-(* every member of the class is a violation: the class is exactly where the code departs from the property *)
-Theorem F14_class_violates s : known_F14 s = true ->
-  exists a, from_script s = Val (Some a) /\ payload_wf a = false /\ ~ address_template s.
-Proof. intros K. apply known_F14_iff in K as (v & prog & V & Short & ->).
-  assert (NT : ~ address_template (v :: n2b (lenN prog) :: prog)).
-  { intros [(h & _ & E)|[(h & _ & E)|[(h & _ & E)|[(h & _ & E)|(v' & prog' & _ & L' & E)]]]]; inversion E; subst; first [lia | destruct V as [V1 V2]; apply N.leb_le in V1; apply N.leb_le in V2; vm_compute in V1, V2; congruence]. }
-  destruct (from_script_cases (v :: n2b (lenN prog) :: prog)) as [(h & L & E & _)|[(h & L & E & _)|[(h & L & E & _)|[(h & L & E & _)|[(v' & prog' & V' & L' & E & F)|(_ & _ & _ & _ & _ & N5)]]]]].
-  - exfalso. apply NT. left. eauto.
-  - exfalso. apply NT. right; left. eauto.
-  - exfalso. apply NT. right; right; left. eauto.
-  - exfalso. apply NT. right; right; right; left. eauto.
-  - inversion E; subst. exists (WitnessProgram v' prog'). split; [exact F|]. split; [|exact NT].
-    cbn [payload_wf]. destruct (N.leb_spec 2 (lenN prog')); [lia|]. rewrite andb_false_r. reflexivity.
-  - exfalso. assert (is_v1plus_p2witprog (v :: n2b (lenN prog) :: prog) = true); [|congruence].
-    apply is_v1plus_p2witprog_iff. exists v, prog. split; [exact V|]. split; [lia|reflexivity]. Qed.
